@@ -9,9 +9,8 @@
 (* fillPeriod); it holds the last min(k, periodCount) points in arrival      *)
 (* order and its end time is the time of the k-th point.  Times are          *)
 (* irrelevant to a count window (no ordering assumption).                    *)
-(* As for time windows, fillPeriod with periodCount <= everyCount is left     *)
-(* open between the code (first = periodCount) and the documentation         *)
-(* ("only applies if the period is greater than the every value").           *)
+(* As for time windows, fillPeriod delays the first batch to a full period   *)
+(* (first = periodCount) whatever everyCount is (property text; the code).   *)
 EXTENDS Integers, Sequences, FiniteSets, TLC
 
 CONSTANTS
@@ -37,7 +36,7 @@ CConfigs == [period : PeriodCounts, every : EveryCounts, fill : Fills]
 CGroup0 == [started |-> FALSE, buf |-> <<>>, start |-> 0, stop |-> 0, size |-> 0, count |-> 0, nextEmit |-> 0]
 
 FirstEmitCode(c) == IF c.fill THEN c.period ELSE c.every
-FirstEmit(c) == {FirstEmitCode(c)} \cup (IF c.fill /\ c.period <= c.every THEN {c.every} ELSE {})
+FirstEmit(c) == {FirstEmitCode(c)}
 
 (* points() *)
 CPoints(s) ==
